@@ -291,7 +291,8 @@ def U4(ctx):
     if ys:
         # it prunes store_i (the older one) only when a newer store exists: dominated by mo_i < mo_j
         atoms = guard_atoms(fn.body, ys[0][0])
-        lt = any(e[0] == "call" and e[1].endswith("PartialOrd::lt") and pol is True for (e, pol, v, sb) in atoms)
+        from .atomics import _is_mo_lt
+        lt = any(_is_mo_lt(prog, e) and pol is True for (e, pol, v, sb) in atoms)
         arg = canon(arg_expr(fn.body, ys[0][1], 0))
         if lt and "first_seen" in arg:
             ctx.ok("U4", fk, "a store seen before the last yield is not offered again, but only if a newer store exists", [site_str(prog, fk, ys[0][0])])
